@@ -97,6 +97,7 @@ pub struct DicParams {
     pub max_base: usize,
     pub max_compound: usize,
     pub max_users: usize,
+    pub min_users: usize,
     pub max_user_entries: usize,
     pub max_dim: u16,
     pub square_only: bool,
@@ -124,6 +125,7 @@ impl DicParams {
             max_base: 10,
             max_compound: 3,
             max_users: 2,
+            min_users: 0,
             max_user_entries: 5,
             max_dim: 4,
             square_only: true,
@@ -404,7 +406,7 @@ pub fn dic_model(p: DicParams) -> BoxedStrategy<DicModel> {
         matrix(p.max_dim, p.square_only),
         vec(base_spec(&p), (if p.anchor_pos { 3 } else { 1 })..=p.max_base.max(3)),
         vec(compound_spec(), 0..=p.max_compound),
-        vec(user, 0..=p.max_users),
+        vec(user, p.min_users.min(p.max_users)..=p.max_users),
     )
         .prop_map(move |(matrix, bases, comps, users)| {
             let system = build_entries(&p2, matrix.nl, matrix.nr, bases, comps, SYS_POS, false, None);
